@@ -556,7 +556,7 @@ def gen_unicode(quick):
                         yield (part, rows_from(list(zip(("Onset",) + kinds, order)), (2, 2), None), 0)
             else:
                 for m in itertools.product(sym, repeat=3):
-                    for layout in itertools.product((0, 1, 2), repeat=2):
+                    for layout in ((2, 2), (1, 1), (0, 0)):     # one marker per row / equal-onset rows / all in one row
                         yield (part, rows_from(m, layout, None), 0)
     # two families in one history: scopes of different names are independent
     for ds in UNI_DEFSETS:
@@ -796,7 +796,7 @@ def run(w: Workload):
                     " (quick: in one of the two sets of a family only the pairs of different spellings)" if w.quick else "",
                     "Onset + two markers of every kind, three different spellings in every order, one marker per row, one set "
                     "per family"
-                    if w.quick else "every sequence x every layout, plus a second value on one spelling"), exhaustive=True)
+                    if w.quick else "every sequence x {one marker per row, equal-onset rows, one row}, plus a second value on one spelling"), exhaustive=True)
     w.part("long: unicode names", cases=len(long_cases) - n_long_ascii,
            bound="seeded random files, 24-60 rows, names drawn from all spellings of all usable families (valued families also "
                  "with a second value), definitions from a sidecar, both definition sets", exhaustive=False)
